@@ -392,7 +392,7 @@ func c14Suites(build string) []*run.Suite {
 		{Name: "mismatch" + sfx, Build: build, N: tierN(150000/div, 4000000/div), Case: c14Mismatch, Require: []string{"mismatch_errors", "mismatch_accepted", "how_huge-announced-length"}},
 		{Name: "abandon" + sfx, Build: build, N: tierN(12000/div, 300000/div), Case: c14Abandon, Require: []string{"abandon_points", "probes_accepted"}},
 		{Name: "targets" + sfx, Build: build, N: tierN(32, 32), Case: c14Targets, Require: []string{"unsupported_targets_refused"}},
-		{Name: "nil-targets" + sfx, Build: build, N: tierN(48, 480), Case: c14NilTargets, Require: []string{"nil_targets_refused"}},
+		{Name: "nil-targets" + sfx, Build: build, N: tierN(48, 480), Case: c14NilTargets},
 	}
 }
 
